@@ -258,7 +258,7 @@ func lemmaTickMonotone(intervalStart uint64, intervalsPerDay uint32, t1, t2 uint
 //@ ensures #ascending: result == (tgl[i] < tgl[j])
 
 //@ func (*WALFileType).Replay
-//@ props C06 C05 C01
+//@ props C06 C05 C01 C04 C03 C34 C35
 //@ assumepre executor.ParseTGData.hdr "A-WAL: a checksum-valid TG frame was produced by serializeTG (md5 collision-freeness; no adversary forging checksums)"
 //@ assumepre executor.ParseTGData.count "A-WAL"
 //@ assumepre executor.ParseTGData.fits "A-WAL"
